@@ -48,14 +48,14 @@ static int packet_row(int k) { int i, n = 0, last = 0; for (i = 0; rows[i][0]; i
 static int packet_has(int k, int name) { int i, r = packet_row(k); for (i = 0; rows[i][0]; i++) if (rows[i][0] == r && rows[i][1] == name) return 1; return 0; }
 void harness(void) {
     cif_container_tp cont; cif_loop_tp loop; cif_pktitr_tp *it = NULL; cif_packet_tp *pkt = NULL, *upd = NULL, *foreign = NULL; int rc, i, delivered = 0, have_current = 0, ended = 0, broken = 0;
-    UChar *un[2], *fn[2];
+    UChar *un[2], *fn[3];
     memset(&db, 0, sizeof db); memset(&cif, 0, sizeof cif); cif.db = &db;
     cont.cif = &cif; cont.id = 7; cont.code = 0; cont.code_orig = 0; cont.parent_id = -1;
     loop.container = &cont; loop.loop_num = 2; loop.category = 0; loop.names = 0;
     senv_fail_mode = 1; senv_fail_at = FAILCALL; senv_calls = 0;      /* the FAILCALL-th fallible engine call fails (0 = none); enumerated */
     senv_step_hook = step_hook; senv_int_hook = int_hook; senv_text16_hook = text_hook; names_pos = 0; vals_pos = 0;
     un[0] = NA; un[1] = NULL; rc = cif_packet_create(&upd, un); V_ASSUME(rc == CIF_OK);
-    fn[0] = NZ; fn[1] = NULL; rc = cif_packet_create(&foreign, fn); V_ASSUME(rc == CIF_OK);
+    fn[0] = NA; fn[1] = NZ; fn[2] = NULL; rc = cif_packet_create(&foreign, fn); V_ASSUME(rc == CIF_OK);      /* an item of the loop FOLLOWED BY an item of another loop */
 
     rc = cif_loop_get_packets(&loop, &it);
     if (FAILCALL == 0) V_ASSERT(rc == (npackets() ? CIF_OK : CIF_EMPTY_LOOP), "iterator granted for a loop with packets, CIF_EMPTY_LOOP otherwise");
